@@ -7,6 +7,6 @@ CONSTANTS
   UseSched = FALSE
   CondErr = FALSE
 SPECIFICATION Spec
-INVARIANTS NoPanic NoStartAfterCancel InterruptedReportsError DoneHasResult CancelReturnedMeansIdle
-PROPERTIES CancelReturns
+INVARIANTS NoPanic NoStartAfterCancel InterruptedReportsError DoneHasResult CancelReturnedMeansIdle InflightIsCount
+PROPERTIES CancelReturns FlatRefinement
 CHECK_DEADLOCK FALSE
